@@ -23,6 +23,7 @@ def run(ctx):
     ar.no_remove_rename_rule(ctx, 'R7.3')
     ar.compat_checks_rule(ctx, 'R7.4')
     ar.parts_first_rule(ctx, 'R7.9')
+    ar.mode_params_rule(ctx, 'R7.10')
     ar.index_normalisation_rule(ctx, 'R7.6')
     from . import c02
     c02.r21(ctx)
